@@ -553,6 +553,13 @@ def execute(spec):
                                record_trace=bool(spec.get("record_trace")))  # fmt: skip
     for ti, prog in enumerate(spec["threads"]):
         sched.add_thread(_body(env, ti, prog))
+    env.acq = []  # (thread, op) in the order in which clock-lock acquisitions happened: a linearization witness
+
+    def on_acquire(lock, t):
+        if lock.site.startswith("testing/_fake_clock.py"):
+            env.acq.append((t.idx, t.op))
+
+    sched.on_acquire = on_acquire
     if spec["mode"] == "sys":
         simclock.ACTIVE = env.simtime
         real0 = simclock.real_time_ns()
@@ -754,7 +761,26 @@ def _judge_conc(env, hist, out):
         return None
 
     h = [(inv, ret, op, c) for ti, oi, inv, ret, op, c in hist]
-    ok, info = linearize.check(h, (spec["init"]["now"], spec["init"]["auto"]), apply, max_nodes=400_000)
+    # witness first: every clock operation takes the clock's lock exactly once, so the order of lock acquisitions is a
+    # candidate linearization; replaying it through the model costs O(n). Only if it does not explain the results is the
+    # full search needed (it may still find another order - the property does not say where the linearization point is).
+    ok, info = None, {"nodes": 0, "order": []}
+    pos = {}
+    for k, key in enumerate(env.acq):
+        pos.setdefault(key, k)
+    if all((ti, oi) in pos for ti, oi, *_ in hist):
+        order = sorted(range(len(hist)), key=lambda i: pos[(hist[i][0], hist[i][1])])
+        state = (spec["init"]["now"], spec["init"]["auto"])
+        for i in order:
+            state = apply(state, hist[i][4], hist[i][5])
+            if state is None:
+                break
+        if state is not None:
+            ok, info = True, {"nodes": len(hist), "order": order}
+            probes["lin_by_lock_order_witness"] = 1
+    if ok is None:
+        ok, info = linearize.check(h, (spec["init"]["now"], spec["init"]["auto"]), apply, max_nodes=1_500_000)
+        probes["lin_full_search"] = 1
     probes["lin_nodes"] = info["nodes"]
     overlaps = 0
     srt = sorted(h)
